@@ -293,20 +293,33 @@ func c14(c *Ctx) {
 			ok2 := lockedAt(fn, call, e.mu)
 			how := "under a lock taken in this function"
 			if !ok2 {
-				// lock held by every caller
-				callers := 0
-				all := true
-				for _, g := range p.FuncsIn(canaryRel) {
-					for _, c2 := range Calls(g) {
-						if c2.Common().StaticCallee() == fn {
+				// lock held by every caller (or, where a caller does not take it itself, by every caller of that caller)
+				var heldByCallers func(f *ssa.Function, depth int) (int, bool)
+				heldByCallers = func(f *ssa.Function, depth int) (int, bool) {
+					callers := 0
+					for _, g := range p.FuncsIn(canaryRel) {
+						for _, c2 := range Calls(g) {
+							if c2.Common().StaticCallee() != f {
+								continue
+							}
+							if _, isGo := c2.(*ssa.Go); isGo {
+								return callers, false
+							}
 							callers++
-							if !lockedAt(g, c2, e.mu) {
-								all = false
+							if lockedAt(g, c2, e.mu) {
+								continue
+							}
+							if depth <= 0 {
+								return callers, false
+							}
+							if n, ok := heldByCallers(g, depth-1); !ok || n == 0 {
+								return callers, false
 							}
 						}
 					}
+					return callers, true
 				}
-				if callers > 0 && all {
+				if callers, all := heldByCallers(fn, 2); callers > 0 && all {
 					ok2 = true
 					how = fmt.Sprintf("under the lock held by all %d caller(s)", callers)
 				}
